@@ -275,6 +275,28 @@ def job_static(job):
                 if after[0] > before[0] or (after[1] > before[1] and not known):
                     bad("non-opening-frame-allocated-state", "%s on stream %d in state %s: stream table / closed memory %r -> %r" % (
                         name, sid, state, before, after), {"layer": "static", "client": client}, frame=name)
+    # (a') closed connections: frames that would open a stream are refused - and allocate nothing either
+    for state in [x for x in (corpus.CLIENT_STATES if client else corpus.SERVER_STATES) if x.startswith("closed")] + ["closed-by-us"]:
+        if state == "closed-by-us":
+            conn = pickle.loads(corpus.state_blob(client, "open"))
+            conn.close_connection()
+            conn.data_to_send()
+        else:
+            conn = pickle.loads(corpus.state_blob(client, state))
+        before = (len(conn.streams), len(conn._closed_streams))
+        for i in range(40):
+            sid = (2 if client else 1) + 2 * (i + 10)
+            fr = wire.push_promise(1, sid, sb(H.REQ)) if client else wire.headers(sid, sb(H.REQ))
+            try:
+                conn.receive_data(fr.serialize())
+            except Exception:  # noqa: BLE001 - refused, as it must be (C19)
+                pass
+            n += 1
+        after = (len(conn.streams), len(conn._closed_streams))
+        outcomes["static:opening-frames-after-close:" + state] = 1
+        if after[0] > before[0] or after[1] > before[1] + 1:
+            bad("non-opening-frame-allocated-state", "40 stream-opening frames on a closed connection (%s): stream table / closed memory %r -> %r" % (
+                state, before, after), {"layer": "static", "client": client}, frame="HEADERS-after-close")
     # (c) CONTINUATION counts
     st = "open" if client else "handshaken"
     blob = corpus.state_blob(client, st)
@@ -294,10 +316,18 @@ def job_static(job):
         if o.kind == "raise" and len(conn.incoming_buffer._headers_buffer) > 65:
             bad("continuation-buffer-kept", "buffered %d frames" % len(conn.incoming_buffer._headers_buffer), {"layer": "static", "client": client})
     # (c) header list size limits
-    for limit, later in ((65536, None), (100, None), (65537, None), (200, 60000), (60000, 200), (300, "with-table-size")):
+    for limit, later in ((65536, None), (100, None), (65537, None), (200, 60000), (60000, 200), (300, "with-table-size"),
+                         (65536, "raised-and-restored")):
         h = H.Solo(client)
         h.rx([wire.settings([], ack=True)])
-        if later == "with-table-size":
+        if later == "raised-and-restored":
+            # raised to 200000 and set back to the value in force while the first change is still in flight; both acknowledged
+            h.api("update_settings", {wire.S_MAX_HEADER_LIST_SIZE: 200000})
+            h.api("update_settings", {wire.S_MAX_HEADER_LIST_SIZE: 65536})
+            h.rx([wire.settings([], ack=True)])
+            h.rx([wire.settings([], ack=True)])
+            later = None
+        elif later == "with-table-size":
             # the limit changes together with HEADER_TABLE_SIZE in one SETTINGS frame
             h.api("update_settings", {wire.S_HEADER_TABLE_SIZE: 8192, wire.S_MAX_HEADER_LIST_SIZE: limit})
             later = None
